@@ -227,6 +227,18 @@ class Project:
                 os.unlink(path)
             os.symlink(op[2], path)
             m.user_write(op[1], "L:" + op[2])
+        elif kind == "udirfile":
+            # the user moves their directory out of the way and puts a regular file of theirs under the name
+            path = self.p / op[1]
+            if path.is_dir() and not path.is_symlink():
+                dst = path.with_name(path.name + ".saved")
+                if dst.exists():
+                    shutil.rmtree(dst)
+                os.rename(path, dst)
+            for n in [n for n in list(m.content) if n.startswith(op[1] + "/")]:
+                m.user_rm(n)
+            self._write(op[1], op[2], replace=True)
+            m.user_write(op[1], op[2])
         elif kind == "ureplace":
             self._write(op[1], op[2], replace=True)
             m.user_write(op[1], op[2])
